@@ -122,3 +122,17 @@ func Windowed(g orb.Geometry) (w orb.Geometry, verify func() string) {
 	}
 	return w, verify
 }
+
+// Spare returns a copy of ps that has spare capacity filled with sentinel points (the layout of a slice built by
+// append, or of a prefix of a longer slice). Functions must give the same answer for it as for an exact-capacity copy.
+func Spare(ps []orb.Point) []orb.Point {
+	if ps == nil {
+		return nil
+	}
+	buf := make([]orb.Point, len(ps)+8)
+	copy(buf, ps)
+	for i := len(ps); i < len(buf); i++ {
+		buf[i] = orb.Point{7e77, -7e77}
+	}
+	return buf[:len(ps)]
+}
